@@ -249,6 +249,7 @@ type stdioTransport struct {
 	logger      Logger
 	contextFunc StdioContextFunc
 	session     *stdioSession
+	writeMu     sync.Mutex // serialises frames written to stdout
 }
 
 // stdioServerTransportOption configures a stdioTransport.
@@ -520,6 +521,10 @@ func (s *stdioTransport) writeResponse(response interface{}, writer io.Writer) e
 	if err != nil {
 		return fmt.Errorf("error marshaling response: %w", err)
 	}
+
+	// Requests are handled concurrently: one frame (payload + newline) must be written at a time.
+	s.writeMu.Lock()
+	defer s.writeMu.Unlock()
 
 	if _, err := writer.Write(data); err != nil {
 		return fmt.Errorf("error writing response: %w", err)
